@@ -6,6 +6,9 @@ extra = sys.argv[4] if len(sys.argv) > 4 else None
 dst = os.path.join('/verif/seeded', name)
 os.makedirs(dst, exist_ok=True)
 meta = json.load(open(os.path.join(src, 'meta.json')))
+if meta.get('obsolete'):
+    print(name, 'obsolete (no longer a breaking change on the current tree, see meta.json)')
+    sys.exit(0)
 prop = meta['property']
 cmd = ['/verif/tools/seedtest.py', src, '--seeds', '0,1,2', '--checks', prop + ((',' + extra) if extra else '')]
 r = json.loads(subprocess.run(cmd, capture_output=True, text=True).stdout[subprocess.run(cmd[:1] + ['--help'], capture_output=True).returncode * 0:].split('\n', 0)[0] if False else subprocess.run(cmd, capture_output=True, text=True).stdout)
